@@ -865,6 +865,12 @@ class Interp:
                 if 'staticmethod' in decos_:
                     return FuncV(meth_)
                 return BoundV(obj, attr)
+            cattr_ = self._class_attr(obj.cls, attr) if obj.cls.module is not None else None
+            if cattr_ is not None:
+                kind_, val_ = cattr_
+                if kind_ == 'property':
+                    return self.call_function(FuncV(val_), [obj], {}, n)
+                return val_
             raise Raised('AttributeError: %s.%s' % (obj.cls.name, attr), getattr(n, 'lineno', 0))
         if isinstance(obj, (DictV, SetV)):
             return BoundV(obj, attr)
@@ -881,6 +887,11 @@ class Interp:
                 return BoundV(obj, attr)
             if isinstance(obj, Const) and type(obj.v).__module__ == 're' and not attr.startswith('_'):
                 return BoundV(obj, attr)
+            if isinstance(obj, Const) and isinstance(obj.v, ast.AST) and not attr.startswith('_'):
+                # a syntax tree obtained from ast.parse of a constant text: plain data
+                if not hasattr(obj.v, attr):
+                    raise Raised('AttributeError: %s.%s' % (type(obj.v).__name__, attr), getattr(n, 'lineno', 0))
+                return _wrap_py(getattr(obj.v, attr))
             return BoundV(obj, attr) if attr in _METHODS else Sym('%s.%s' % (_prov(obj), attr))
         if isinstance(obj, ExcV):
             return Sym('%s.%s' % (_prov(obj), attr))
@@ -1483,6 +1494,33 @@ class Interp:
             self._wrapper_cls_names = w
         return w
 
+    def _class_attr(self, ci, attr):
+        """an attribute defined by an assignment in the class body (of the class or a package base class):
+        ``name = property(getter)`` -> ('property', getter function);  ``name = <constant expression>`` -> ('value', V)"""
+        seen = set()
+        todo = [ci]
+        while todo:
+            c = todo.pop(0)
+            if c is None or id(c) in seen:
+                continue
+            seen.add(id(c))
+            for st_ in c.node.body:
+                if isinstance(st_, ast.Assign) and any(isinstance(t_, ast.Name) and t_.id == attr for t_ in st_.targets):
+                    v_ = st_.value
+                    if isinstance(v_, ast.Call) and isinstance(v_.func, ast.Name) and v_.func.id == 'property' and v_.args \
+                            and isinstance(v_.args[0], ast.Name) and v_.args[0].id in c.methods:
+                        return 'property', c.methods[v_.args[0].id]
+                    if isinstance(v_, ast.Constant):
+                        return 'value', Const(v_.value)
+                    raise Undecided('class attribute %s.%s = %s' % (c.name, attr, src(v_)[:40]))
+            for b in c.bases:
+                bn = b.split('.')[-1]
+                for m_ in self.repo.modules.values():
+                    if bn in m_.classes:
+                        todo.append(m_.classes[bn])
+                        break
+        return None
+
     def _class_level_method(self, t, attr):
         """Cls.attr for a class of the package: an alternative constructor (classmethod, bound to the class) or a static helper"""
         for m_ in self.repo.modules.values():
@@ -1688,6 +1726,14 @@ class Interp:
             if callable(fn_):
                 try:
                     return _wrap_py(fn_(*[x.v for x in args]))
+                except Exception as e:
+                    raise Raised('%s: %s' % (type(e).__name__, e), getattr(node, 'lineno', 0))
+        if h is None and name in ('ast.parse', 'ast.literal_eval') and getattr(self, 'concrete_context', False) \
+                and args and isinstance(args[0], Const) and isinstance(args[0].v, (str, bytes)):
+            kw_ = {k_: v_.v for k_, v_ in kwargs.items() if isinstance(v_, Const)}
+            if len(kw_) == len(kwargs) and all(isinstance(x, Const) for x in args):
+                try:
+                    return _wrap_py(getattr(ast, name[4:])(*[x.v for x in args], **kw_))
                 except Exception as e:
                     raise Raised('%s: %s' % (type(e).__name__, e), getattr(node, 'lineno', 0))
         if h is None and name.startswith(('math.', 're.')):
@@ -1973,7 +2019,7 @@ class Interp:
         return ListV(items[i:])
 
     def p_partial(self, a, k, n):
-        if getattr(self, 'concrete_partial', False):
+        if getattr(self, 'concrete_partial', False) or getattr(self, 'concrete_context', False):
             return PartialV(a[0], list(a[1:]), dict(k))
         return Sym('partial(%s)' % ','.join(_prov(x) for x in a))
 
